@@ -24,7 +24,15 @@ class C02(Check):
         weights = dict(tree.DEFAULT_CFG["weights"])
         weights.update({"remove": 7, "move": 6, "copy": 7, "reopen": 4, "values": 1, "flag": 1, "rename": 1,
                         "metadata": 1, "observe": 1})
-        cfg = {"weights": weights, "max_ops": 25}
+        # constructive starts (drawn): nothing / a drillhole group owning a file and a comment / an object with two
+        # data sets in a property group (so that removals and repeated cross-workspace copies meet these shapes often)
+        dh = [{"op": "group", "cls": "DrillholeGroup", "parent": 0, "name": "dh"},
+              {"op": "file", "who": 0, "blob": [1, 2, 3], "name": "f.dat"},
+              {"op": "comment", "who": 0, "text": "c"}]
+        pg = [{"op": "object", "cls": "Points", "parent": 0, "name": "p", "geom": {"n": 3, "g": [1, 2, 3, 4]}},
+              {"op": "data", "obj": 0, "kind": "float", "assoc": "VERTEX", "vals": [1, 2, 3], "name": "a", "short": 0, "pg": "pg1"},
+              {"op": "data", "obj": 0, "kind": "int", "assoc": "VERTEX", "vals": [1, 2, 3], "name": "b", "short": 0, "pg": "pg1"}]
+        cfg = {"weights": weights, "max_ops": 25, "prefixes": [[], [], dh, pg, dh + pg]}
         if tier == "thorough":
             cfg.update({"max_ops": 40, "object_classes": tree.F.OBJECT_CLASSES,
                         "group_classes": tree.F.GROUP_CLASSES})
